@@ -232,7 +232,7 @@ def check_history(ctx, spec):
             if op == 'serve':
                 request['entries'] = step['entries']
             if op == 'perftrack':
-                request['nogc'] = True
+                request['nogc'] = os.environ.get('VF_C04_GC') != '1'
             res = lc.run_step(request, workdir)[0]
             tags = []
             if op == 'perftrack' and model.head_fed_trainers():
